@@ -151,6 +151,7 @@ func RunPlan(t *testing.T, p *Plan) (res *RunResult) {
 				a := &p.Actions[idx]
 				sleepUntil(p.Start.Add(a.At))
 				synctest.Wait()
+				w.CurAction = idx
 				w.exec(idx, a)
 				synctest.Wait()
 				if w.PostAction != nil {
